@@ -20,6 +20,8 @@ EmitPath == Kind = "path" => PrintT(ToJson([f |-> "args", kind |-> "path", s |->
 EmitSub == Kind = "sub" => PrintT(ToJson([f |-> "args", kind |-> "sub", s |-> Join(s), m |-> M0,
                  sub1 |-> SubKeyClass(s, ":"), sub2 |-> SubKeyClass(s, "|"), nv1 |-> NewValClass(s, ":"), nv2 |-> NewValClass(s, "|"), pair |-> PairClass(M0, s)]))
 C(x) == <<x>>
-cPathChunks == {C("a"), C("."), C("["), C("]"), C("0"), C("1"), C("-"), C("+"), C("*"), C("9")}
+\* (with the largest 32-bit and 64-bit integers as chunks: an index is parsed within 32 bits)
+cPathChunks == {C("a"), C("."), C("["), C("]"), C("0"), C("1"), C("-"), C("+"), C("*"), C("9"),
+                <<"2", "1", "4", "7", "4", "8", "3", "6", "4", "7">>, <<"9", "2", "2", "3", "3", "7", "2", "0", "3", "6", "8", "5", "4", "7", "7", "5", "8", "0", "7">>}
 cSubChunks == {C("a"), C(":"), C("|"), C("!"), C("*"), C("1"), C("t"), <<"b", "o", "o", "l">>, <<"n", "u", "m">>, <<"s", "t", "r", "i", "n", "g">>, C(".")}
 =============================================================================
